@@ -66,10 +66,13 @@ class LoopSpec:
     variant(ex, env): optional integer term that must decrease (while loops).
     """
 
-    def __init__(self, inv, havoc, modifies=(), ghost=None, variant=None, unroll=False, enter=None, peel=0):
+    def __init__(self, inv, havoc, modifies=(), ghost=None, variant=None, unroll=False, enter=None, peel=0, exit_lemmas=None):
         self.inv, self.havoc, self.modifies = inv, havoc, tuple(modifies)
         self.ghost, self.variant, self.unroll, self.enter = ghost, variant, unroll, enter
         self.peel = peel          # number of leading iterations executed concretely before the cut
+        # exit_lemmas(ex, env) -> [(name, formula)]: consequences of the invariant at loop exit, each PROVED (an obligation)
+        # and then used; they keep the obligations after the loop small (no new assumption enters)
+        self.exit_lemmas = exit_lemmas
 
 
 def assigned_names(stmts):
@@ -157,6 +160,10 @@ class Executor:
     # ------------------------------------------------------------ obligations
     def oblige(self, oid, goal, kind="assert", node=None, note=""):
         self.ctx.oblige(oid, goal, kind, getattr(node, "lineno", 0), note)
+        if kind in ("precondition", "index") and isinstance(goal, z3.BoolRef) and not z3.is_false(goal):
+            # assert-then-assume: once a call's precondition / an index bound has been posed as an obligation, the rest of the
+            # path may rely on it (if it does not hold, that obligation itself is reported)
+            self.ctx.assume(goal)
 
     def assume(self, f):
         self.ctx.assume(f)
@@ -665,6 +672,10 @@ class Executor:
         if seq is not None:
             self.assume(k == seq.n)
             self._assume_inv(spec, env, seq.n)
+            if spec.exit_lemmas:
+                for name, f in spec.exit_lemmas(self, env):
+                    self.oblige(f"{L}.exit.{name}", f, "lemma", s)
+                    self.assume(f)
         else:
             self.assume(k >= 0)
             self._assume_inv(spec, env, k)
